@@ -48,7 +48,8 @@ def handle : DrvHandler := fun op args =>
                          pending := some { fns := fns, rvTest := 0, view := view, merge := false } }
       match step own s (.jsonPatch false) with
       | some s' => some (ok (Json.mkObj [("fins", strs s'.fins), ("carried", strs (s'.mem.map fnStr)),
-                                          ("gone", .bool s'.gone), ("written", .bool (s'.rv != s.rv))]))
+                                          ("gone", .bool s'.gone), ("written", .bool (s'.rv != s.rv)),
+                                          ("sent", .bool (applyFns own fns view != view))]))
       | none => some (err "disabled")
   | _, _ => none
 
